@@ -92,6 +92,7 @@ type Scenario struct {
 	CustomExec  bool   `json:"customexec"` // register application executors MYCMD / mycmd2
 	Concurrent  bool   `json:"concurrent"` // every connection is driven by its own goroutine (true concurrency)
 	Model       bool   `json:"model"`      // replies (and the ref store's contents) are judged against RedisModel.tla
+	PassCycle   bool   `json:"passcycle"`  // earlier runs of the same server object: Start/Stop with the password, Start/Stop without, then this run
 	CloseFail   bool   `json:"closefail"`  // the transport's Close reports an error (after closing), as a TLS connection whose peer vanished does
 	SlowWrite   bool   `json:"slowwrite"`  // the scripted transport's Write is slow (see sconn.slow)
 	ModelConns  []int  `json:"modelconns"` // if set: only these connections are judged against the model (C07: the witness), no store dumps
@@ -164,6 +165,15 @@ func (rn *runner) newServer(s Scenario, conns []*connRun) (*redis.Server, any) {
 	if s.RequirePass != "" {
 		server.SetRequirePass(symBytes[s.RequirePass])
 	}
+	if s.PassCycle && s.RequirePass != "" {
+		// the server has been run before: with the password, then without one, and now requires it again
+		must(server.Start())
+		must(server.Stop())
+		server.RemoveRequirePass()
+		must(server.Start())
+		must(server.Stop())
+		server.SetRequirePass(symBytes[s.RequirePass])
+	}
 	exec := func(tag string) redis.Executor {
 		return func(conn *redis.Conn, cmd string, args redis.Arguments) (*redis.Message, error) {
 			rest := []string{}
@@ -174,7 +184,7 @@ func (rn *runner) newServer(s Scenario, conns []*connRun) (*redis.Server, any) {
 				}
 				rest = append(rest, a)
 			}
-			rn.rec.Emit(Ev{"ev": "call", "c": connID(conn), "m": tag, "a": A(L(rest)), "opt": Ev{"none": true}, "db": conn.Database(),
+			rn.rec.Emit(Ev{"ev": "call", "c": connID(conn), "m": tag, "a": A(L(rest)), "opt": Ev{"none": true}, "db": dbRec(conn.Database()),
 				"auth": conn.IsAuthrized(), "inreg": true, "ud": "", "lag_ms": 0})
 			res := result{kind: "val", v: Val{T: "bulk", P: []byte("R:" + tag)}}
 			rn.rec.Emit(Ev{"ev": "callret", "c": connID(conn), "m": tag, "res": res.json()})
